@@ -293,14 +293,24 @@ func (e *Engine) ResolveType(pkgPath, expr string) (types.Type, error) {
 					cands = append(cands, ip)
 				}
 			}
-			for _, ip := range cands {
-				if ip.Name == id.Name && ip.Types != nil {
-					if o := ip.Types.Scope().Lookup(n.Sel.Name); o != nil {
-						if tn, ok := o.(*types.TypeName); ok {
-							return tn.Type(), nil
+			for round := 0; round < 2; round++ {
+				for _, ip := range cands {
+					if ip.Name == id.Name && ip.Types != nil {
+						if o := ip.Types.Scope().Lookup(n.Sel.Name); o != nil {
+							if tn, ok := o.(*types.TypeName); ok {
+								return tn.Type(), nil
+							}
 						}
 					}
 				}
+				// not among the imports of the contract's package: any repository package of that name
+				cands = nil
+				for pp, ip := range e.PkgByPath {
+					if e.ModPath != "" && strings.HasPrefix(pp, e.ModPath) {
+						cands = append(cands, ip)
+					}
+				}
+				sort.Slice(cands, func(i, j int) bool { return cands[i].PkgPath < cands[j].PkgPath })
 			}
 			return nil, fmt.Errorf("unknown type %s.%s", id.Name, n.Sel.Name)
 		case *ast.ArrayType:
@@ -356,6 +366,9 @@ func (e *Engine) Bind() (bound []Bound, unbound []*Contract) {
 			fn = e.Funcs[c.PkgPath+"::"+c.Key]
 		} else {
 			fn = e.Funcs["::"+c.Key]
+		}
+		if fn != nil && fn.TypeParams().Len() > 0 && len(fn.TypeArgs()) == 0 {
+			fn = nil // the generic origin itself is not a verification unit: its instances are
 		}
 		if fn == nil {
 			// a contract on a generic function or method binds to every instantiation
